@@ -261,6 +261,12 @@ def _run_point(case, ctx):
 
     _diff(ctx, "metadata-value", base, variant(m_meta_val), spec)
     _diff(ctx, "metadata-key-added", base, variant(lambda s: s["meta"].__setitem__("extra_key_zz", 1)), spec)
+    # a difference confined to characters outside ASCII (alpha / gamma alumina, Mueller / Moeller with umlauts, micro sign / Greek mu)
+    for a_txt, b_txt in (("α-Al2O3", "γ-Al2O3"), ("Müller", "Möller"), ("45 µm", "45 μm")):
+        _diff(ctx, "metadata-value-non-ascii", variant(lambda s: s["meta"].__setitem__("phase_or_name", a_txt)), variant(lambda s: s["meta"].__setitem__("phase_or_name", b_txt)), spec)
+    # equal content held in different objects: NaN, and a sequence given as tuple or as list (what a JSON parse returns)
+    _same(ctx, "metadata-nan-in-two-objects", variant(lambda s: s["meta"].__setitem__("ratio", float("nan"))), variant(lambda s: s["meta"].__setitem__("ratio", numpy.float64("nan") * 1.0)), spec)
+    _same(ctx, "metadata-tuple-vs-list", variant(lambda s: s["meta"].__setitem__("cycle", (1, 2, 3))), variant(lambda s: s["meta"].__setitem__("cycle", [1, 2, 3])), spec)
     if spec["meta"]:
         k0 = sorted(spec["meta"])[0]
         _diff(ctx, "metadata-key-removed", base, variant(lambda s: s["meta"].pop(k0)), spec)
